@@ -130,6 +130,9 @@ def _flags(case):
 
 
 def run_case(case):
+    if "unencodable" in case:
+        v = _unencodable_case(case["unencodable"], case["order"])
+        return [{"case": case, "what": v[0], "detail": v[1]}] if v else []
     if "locale" in case:
         v = _locale_case(case["locale"])
         return [{"case": case, "what": v[0], "detail": v[1]}] if v else []
@@ -207,6 +210,7 @@ def explore(tier, seed, runner):
         for i in range(0, len(cases), 6):
             tasks.append({"cases": cases[i : i + 6], "new_ast": new_ast, "new_bytes": new_bytes})
     tasks += [{"locale": f} for f in ("black", "cmd")]
+    tasks += [{"unencodable": e, "order": o} for e in ("latin-1", "ascii", "cp1252") for o in ("first", "last")]
     for t, r in zip(tasks, runner(tasks)):
         t = {"cases": t["cases"]} if "cases" in t else t
         done.append((t, r))
@@ -246,8 +250,49 @@ def _locale_case(fmt):
     return None
 
 
+def _unencodable_case(enc, order):
+    """A file with a coding cookie gets a value that its encoding cannot hold: an internal error for that one file.
+    Every file must be its old bytes or a complete new content in its own encoding."""
+    from ..drivers import plugin
+
+    cookie = "# -*- coding: %s -*-\n" % enc
+    bad = cookie + "from inline_snapshot import snapshot\n\n\ndef test_e():\n    assert chr(0x20AC) + chr(0x4E2D) == snapshot('x')\n    assert 1 == snapshot()\n"
+    good = "from inline_snapshot import snapshot\n\n\ndef test_g():\n    assert [1, 2] == snapshot([1])\n"
+    names = ("test_a.py", "test_b.py") if order == "first" else ("test_b.py", "test_a.py")
+    files = {names[0]: bad.encode(enc), names[1]: good.encode(), "pyproject.toml": b""}
+    d = plugin.mk_project(files)
+    try:
+        r = plugin.session(d, ["--inline-snapshot=create,fix"])
+        s1 = plugin.listing(d)
+        r2 = plugin.session(d, [])
+        s2 = plugin.listing(d)
+    finally:
+        plugin.cleanup()
+    for label, st in (("after the session:", s1), ("after the following plain session:", s2)):
+        for name, codec in ((names[0], enc), (names[1], "utf-8")):
+            cur = st.get(name)
+            if cur == files[name]:
+                continue
+            try:
+                ast.parse(cur.decode(codec))
+            except Exception as e:  # noqa
+                return ("half-written-test-file", "%s %s is neither its old content nor parsable in %s (%s): %r | %s" % (label, name, codec, type(e).__name__, cur[:120], r["out"][-300:]))
+            if b"snapshot()" in cur or (name == names[1] and b"[1, 2]" not in cur.split(b"snapshot(")[-1]):
+                return ("test-file-neither-old-nor-complete-new", "%s %s: %r" % (label, name, cur[-200:]))
+    return None
+
+
 def run_task(task):
     out = {"n": 0, "nontrivial": [], "outcomes": {}, "violations": [], "samples": []}
+    if "unencodable" in task:
+        v = _unencodable_case(task["unencodable"], task["order"])
+        out["n"] = 1
+        if v:
+            out["violations"].append({"case": {"unencodable": task["unencodable"], "order": task["order"]}, "what": v[0], "detail": v[1]})
+        else:
+            out["nontrivial"].append("unencodable:%s:%s" % (task["unencodable"], task["order"]))
+        out["outcomes"]["viol:" + v[0] if v else "ok:unencodable:" + task["unencodable"]] = 1
+        return out
     if "locale" in task:
         v = _locale_case(task["locale"])
         out["n"] = 1
